@@ -290,6 +290,54 @@ fn eval_typed<C: CellType>(c: &CompileCheck, v: &mut Verdict) {
             }
         };
     }
+    let halts_quickly = {
+        let r = crate::refmodel::run(&c.program, c.width, &c.peer, crate::refmodel::Limits { max_steps: 20_000, max_events: 4000, min_events_on_cycle: 0, accelerate: false, mute_output: false });
+        r.status == crate::refmodel::Status::Halted
+    };
+    // 5. an executor's behaviour must not depend on what was asked of the same object before
+    macro_rules! order {
+        ($t:ty, $name:expr) => {
+            if let (Ok(fresh), Ok(used)) = (<$t>::create(&c.program, c.level), <$t>::create(&c.program, c.level)) {
+                let one = |e: &$t, b: Option<u64>| run_three::<C, _>(e, &c.peer, b).map(|mut r| r.remove(0));
+                // `used` first runs in another mode, then both are asked the same thing
+                let warm = if halts_quickly { one(&used, None).map(|_| ()) } else { one(&used, Some(7)).map(|_| ()) };
+                if warm.is_ok() {
+                    if let (Ok(a), Ok(b)) = (one(&fresh, Some(5_000)), one(&used, Some(5_000))) {
+                        v.executions += 5;
+                        if a != b {
+                            v.fail(
+                                "not-reusable",
+                                0,
+                                format!(
+                                    "{}: execute_limited(5000) on a fresh executor gives {} events finished={}, on an executor that was run in another mode before {} events finished={}",
+                                    $name, a.0.len(), a.1, b.0.len(), b.1
+                                ),
+                            );
+                            return;
+                        }
+                    }
+                }
+            }
+        };
+    }
+    order!(InplaceInterpreter<C>, "InplaceInterpreter");
+    order!(IrInterpreter<C>, "IrInterpreter");
+    order!(BcInterpreter<C>, "BcInterpreter");
+    #[cfg(not(miri))]
+    {
+        order!(BaseJitCompiler<C>, "BaseJitCompiler");
+        // machine code of one variant must not depend on which variant was requested first
+        if let (Ok(j1), Ok(j2)) = (BaseJitCompiler::<C>::create(&c.program, c.level), BaseJitCompiler::<C>::create(&c.program, c.level)) {
+            let a = j1.print_mc(true, true);
+            let _ = j2.print_mc(false, false);
+            let _ = j2.print_mc(false, true);
+            let b = j2.print_mc(true, true);
+            if a != b {
+                v.fail("not-reusable", 0, "BaseJitCompiler::print_mc(limited, safe) differs between a fresh compiler and one that printed other variants first".into());
+                return;
+            }
+        }
+    }
     reuse!(InplaceInterpreter<C>, "InplaceInterpreter");
     reuse!(IrInterpreter<C>, "IrInterpreter");
     reuse!(BcInterpreter<C>, "BcInterpreter");
